@@ -1263,7 +1263,8 @@ func (e *Enc) assertsAt(call *ssa.Call) {
 	}
 	txt := e.w.exprTextAt(e.fn, call.Pos())
 	for _, a := range e.ctr.Asserts {
-		byName := strings.HasPrefix(a.At, "call ")
+		never := strings.HasPrefix(a.At, "never call ")
+		byName := strings.HasPrefix(a.At, "call ") || never
 		if byName {
 			// `at "call Name"`: every call of a function or method with that name; $arg0.. are its arguments
 			// (the receiver of a method is $recv), so the clause does not depend on how the call is spelled
@@ -1273,7 +1274,7 @@ func (e *Enc) assertsAt(call *ssa.Call) {
 			} else if f := c.StaticCallee(); f != nil {
 				nm = f.Name()
 			}
-			if nm == "" || nm != strings.TrimSpace(a.At[5:]) {
+			if nm == "" || nm != strings.TrimSpace(strings.TrimPrefix(strings.TrimPrefix(a.At, "never "), "call ")) {
 				continue
 			}
 		} else if a.At == "" || strings.Join(strings.Fields(a.At), " ") != txt {
@@ -1329,7 +1330,8 @@ func (e *Enc) missingAsserts() {
 		return
 	}
 	for _, a := range e.ctr.Asserts {
-		if e.assertHit[a.Label] == 0 {
+		if e.assertHit[a.Label] == 0 && !strings.HasPrefix(a.At, "never call ") {
+			// (`at "never call Name"` clauses are satisfied by the absence of such a call)
 			e.contractError("assert:"+a.Label, fmt.Errorf("anchor %q not found in the function body", a.At))
 		}
 	}
